@@ -83,10 +83,14 @@ func (o *OracleC09) OnOut(n *Node, st *Step, out *Out) {
 		// and one view is wasted.  Classed known only if that happened at this height in a
 		// view the silent validators do not account for.
 		class := "view_higher_than_silent_count"
+		wasted := 0 // each primary that entered its view through a recovery message explains one view
 		for v := byte(0); v < n.d.ViewNumber; v++ {
 			if o.viaRecovery[hv{out.Hdr.Idx, v}] {
-				class = "view_wasted_primary_entered_view_by_recovery"
+				wasted++
 			}
+		}
+		if wasted > 0 && int(n.d.ViewNumber) <= o.silent+wasted {
+			class = "view_wasted_primary_entered_view_by_recovery"
 		}
 		o.s.Violate("C09", class, fmt.Sprintf("%s decided height %d in view %d with %d validators silent from the start on a synchronous network", n, out.Hdr.Idx, n.d.ViewNumber, o.silent), n.id)
 	}
@@ -129,17 +133,38 @@ func (o *OracleC09) AtEnd(s *Sim) {
 					minH = m.tip().Idx + 1
 				}
 			}
-			props := map[Hash]bool{}
+			// proposals held per view (a node holds the proposal of the view it is in), and
+			// whether somebody is locked to that very view
+			propsAt := map[byte]map[Hash]bool{}
+			lockedAt := map[byte]bool{}
 			locked := false
 			for _, m := range o.live() {
 				if m.d == nil || m.d.BlockIndex != minH {
 					continue
 				}
 				if q := m.d.PreparationPayloads[m.d.PrimaryIndex]; q != nil && q.Type() == dbft.PrepareRequestType {
-					props[q.Hash()] = true
+					if propsAt[m.d.ViewNumber] == nil {
+						propsAt[m.d.ViewNumber] = map[Hash]bool{}
+					}
+					propsAt[m.d.ViewNumber][q.Hash()] = true
 				}
-				if m.d.CommitSent() || m.d.PreCommitSent() {
+				if lv, ok := ownLockView(m); ok {
 					locked = true
+					lockedAt[lv] = true
+				}
+			}
+			// L1 needs two different proposals for ONE view, somebody locked to that view, and a
+			// primary of that view that lost its state at this height (that is how an honest
+			// primary comes to propose twice)
+			splitView := false
+			for v, ps := range propsAt {
+				if len(ps) < 2 || !lockedAt[v] {
+					continue
+				}
+				for _, m := range s.nodes {
+					if m.kind == FAmnesia && m.amnesiaAt[minH] && s.sc.IndexAt(minH, m.ident) == primaryOf(minH, v, len(s.sc.ValsAt(minH))) {
+						splitView = true
+					}
 				}
 			}
 			views := map[byte]bool{}
@@ -184,14 +209,17 @@ func (o *OracleC09) AtEnd(s *Sim) {
 						willing++
 					}
 				}
-				if m.d.ViewNumber == maxView && (!isLocked || lv == maxView) {
+				// (a restarted validator that only got its own earlier pre-commit back, holds no
+				// proposal and therefore ignores the recovery messages that carry it - observation
+				// O7 - cannot contribute a commit and does not count)
+				if m.d.ViewNumber == maxView && (!isLocked || (lv == maxView && (m.d.CommitSent() || m.d.RequestSentOrReceived()))) {
 					atTop++
 					if m.d.IsPrimary() {
 						primAtTop = true
 					}
 				}
 			}
-			if len(props) >= 2 && locked && free < mQ {
+			if splitView && locked && free < mQ {
 				class = "stall_commit_lock_with_split_proposals"
 			} else if locked && lockView < maxView && willing < mQ && (!primAtTop || atTop < mQ) {
 				// Known protocol-level lock of dBFT 2.0 (neo-modules issue 792, discussed in
@@ -241,7 +269,15 @@ func (o *OracleC09) crashLock(h uint32) bool {
 			continue
 		}
 		free++
-		if !m.d.ViewChanging() || m.d.CountCommitted()+m.d.CountFailed() > m.d.F() {
+		nc, nf := 0, 0 // recomputed by the documented rule, not read from the library's counters
+		for i := range m.d.Validators {
+			if m.d.CommitPayloads[i] != nil || m.d.PreCommitPayloads[i] != nil {
+				nc++
+			} else if ls := m.d.LastSeenMessage[i]; ls == nil || ls.Height < m.d.BlockIndex || ls.View < m.d.ViewNumber {
+				nf++
+			}
+		}
+		if !m.d.ViewChanging() || nc+nf > m.d.F() {
 			return false
 		}
 	}
